@@ -1052,6 +1052,9 @@ class Interp:
         return Unknown("call %s" % norm(node.func)[:50])
 
     def array_method(self, base, attr, node, env):
+        if attr == "astype" and isinstance(base, Array):
+            # same values in another element type (the index algebra works over the complex numbers)
+            return base.copy()
         args = [self.eval(a, env) for a in node.args]
         if attr in ("conj", "conjugate") and not args:
             return ta.a_conj(base) if isinstance(base, Array) else _conj_s(base)
